@@ -357,9 +357,9 @@ Proof. vm_compute. split; reflexivity. Qed.
 (* ["a", {face: fg, text: ["b", {face: bg, glyph}]}, {wraps: false}] *)
 Example C09_json_text_nonvacuous :
   let g := KGlyph 999 1 2 [120%N] in
-  let doc := JArr [JStr [97%N]; JObj (Some (mkFace (Some 255%N) None 0%N)) None
-                                   (JBText (JArr [JStr [98%N]; JObj (Some (mkFace None (Some 65535%N) 0%N)) None (JBGlyph g (Some (JStr [122%N])))]));
-                   JObj None (Some false) JBNone] in
+  let doc := TxArr [TxStr [97%N]; TxObj (Some (mkFace (Some 255%N) None 0%N)) None
+                                   (JBText (TxArr [TxStr [98%N]; TxObj (Some (mkFace None (Some 65535%N) 0%N)) None (JBGlyph g (Some (TxStr [122%N])))]));
+                   TxObj None (Some false) JBNone] in
   jt_collect j0 doc =
   mkJ [mkCell face0 (KChar 97); mkCell (mkFace (Some 255%N) None 0%N) (KChar 98);
        mkCell (mkFace (Some 255%N) (Some 65535%N) 0%N) g] false face0.
